@@ -7,9 +7,10 @@
   (inner, left, right, full, cross), GROUP BY with COUNT/SUM/AVG/MIN/MAX, DISTINCT, ORDER BY,
   LIMIT/OFFSET; INSERT, UPDATE, DELETE with affected counts.
 
-  Core Lean only.  Everything is a total function over lists; the recursion is structural, so the
+  Core Lean only (and C19's value model for the int → double conversion).  Everything is a total function over lists; the recursion is structural, so the
   definitions reduce in the kernel (`decide` proves the witness theorems).
 -/
+import AxVerif.Model.Value
 namespace AxVerif.Sql
 
 /-! ## Values -/
@@ -33,6 +34,8 @@ abbrev Table := List Row
 /-- Declared column types of the fragment (INT = 32 bit, BIGINT = 64 bit). -/
 inductive Ty where
   | int | bigint | bool | text | double
+  /-- UINT (32 bits), BIGUINT (64 bits); FLOAT (like DOUBLE: stored, compared and shown only) -/
+  | uint | biguint | float
   deriving DecidableEq, Repr, Inhabited
 
 inductive Err where
@@ -238,29 +241,70 @@ def i64Max : Int := 9223372036854775807
 def fitsI32 (v : Int) : Bool := i32Min ≤ v && v ≤ i32Max
 def fitsI64 (v : Int) : Bool := i64Min ≤ v && v ≤ i64Max
 
-/-- integer arithmetic of the promotion table (every signed pair gives a 64-bit result):
-    truncating division, division by zero and results outside 64 bits are errors -/
-def arithInt (D : Defects) (op : ArithOp) (a b : Int) : Except Err Value :=
+def u64Max : Int := 18446744073709551615
+def u32Max : Int := 4294967295
+
+/-- the range of the result type of the promotion table: unsigned (op) unsigned is BIGUINT (0 … 2^64 - 1), every other
+    pair of integer operands is BIGINT (64 bits, signed) — whatever the widths of the operands -/
+def fitsPromoted (uns : Bool) (r : Int) : Bool := if uns then 0 ≤ r && r ≤ u64Max else fitsI64 r
+
+/-- the exact result of an integer operation (truncating division) -/
+def exactInt (op : ArithOp) (a b : Int) : Int :=
+  match op with
+  | .add => a + b | .sub => a - b | .mul => a * b
+  | .div => Int.tdiv a b | .mod => Int.tmod a b
+
+/-- integer arithmetic of the promotion table.  `uns` = both operands are of an unsigned type.  Division by zero is an
+    error; otherwise the result is the exact integer result if the promoted type holds it, else an overflow error -/
+def arithInt (D : Defects) (uns : Bool) (op : ArithOp) (a b : Int) : Except Err Value :=
   if (op = .div || op = .mod) && b = 0 then
     .error (if D.divZeroPanics then .panic else .divzero)
   else
-    let r := match op with
-      | .add => a + b | .sub => a - b | .mul => a * b
-      | .div => Int.tdiv a b | .mod => Int.tmod a b
-    if fitsI64 r then .ok (.int r)
+    if fitsPromoted uns (exactInt op a b) then .ok (.int (exactInt op a b))
     else .error (if D.overflowPanics then .panic else .overflow)
 
-def arith (D : Defects) (op : ArithOp) : Value → Value → Except Err Value
+def arith (D : Defects) (uns : Bool) (op : ArithOp) : Value → Value → Except Err Value
   | .null, _ => .ok .null
   | _, .null => .ok .null
-  | .int a, .int b => arithInt D op a b
+  | .int a, .int b => arithInt D uns op a b
   | _, _ => .error .type
+
+/-! ### DOUBLE / FLOAT values: the order key of the IEEE-754 bit pattern (integer arithmetic on bit patterns only; the
+    conversion of an integer to the nearest double is C19's `intToFloat`) -/
+
+def two63 : Nat := 9223372036854775808
+
+def dblKeyOfBits (b : Nat) : Int := if b < two63 then (b : Int) else -(((b - two63 : Nat)) : Int)
+
+def dblBitsOfKey (k : Int) : Nat := if k ≥ 0 then k.toNat else two63 + (-k).toNat
+
+/-- the double nearest to an integer (exact below 2^53) -/
+def dblOfInt (i : Int) : Value := .dbl (dblKeyOfBits (AxVerif.Value.intToFloat AxVerif.Value.f64 i))
+
+/-- CEIL (`up`), FLOOR (`down`) or ROUND (neither: halves away from zero) of the finite double with key `k`, as an integer -/
+def dblToInt (up down : Bool) (k : Int) : Int :=
+  let b := dblBitsOfKey k
+  let m := AxVerif.Value.f64.sig b
+  let q := AxVerif.Value.f64.qexp b
+  let neg := decide (k < 0)
+  let mag : Nat :=
+    if 0 ≤ q then m * 2 ^ q.toNat
+    else
+      let s := (-q).toNat
+      let t := m / 2 ^ s
+      let rem := m % 2 ^ s
+      if rem == 0 then t
+      else if up then (if neg then t else t + 1)
+      else if down then (if neg then t + 1 else t)
+      else (if 2 * rem ≥ 2 ^ s then t + 1 else t)
+  if neg then -(mag : Int) else (mag : Int)
 
 /-! ## Expressions -/
 
-/-- string functions of one argument -/
+/-- scalar functions of one argument: the string functions, and ABS / CEIL / FLOOR / ROUND (which return DOUBLE) -/
 inductive StrFn where
   | upper | lower | length | ltrim | rtrim
+  | abs | ceil | floor | round
   deriving DecidableEq, Repr, Inhabited
 
 inductive Expr where
@@ -285,6 +329,10 @@ inductive Expr where
   | strFn (f : StrFn) (e : Expr)
   /-- `a || b` -/
   | concat (a b : Expr)
+  /-- `NULLIF(a, b)` -/
+  | nullif (a b : Expr)
+  /-- `COALESCE(x₁, …, xₙ)` -/
+  | coalesce (xs : List Expr)
   deriving Repr, Inhabited
 
 /-- A NULL in boolean position is unknown; a non-boolean is a type error -/
@@ -326,6 +374,10 @@ def rtrimBytes (s : List Nat) : List Nat := (ltrimBytes s.reverse).reverse
 /-- LENGTH counts characters: the bytes of a UTF-8 text that are not continuation bytes -/
 def charCount (s : List Nat) : Nat := (s.filter (fun b => b < 128 || 192 ≤ b)).length
 
+def StrFn.isNumeric : StrFn → Bool
+  | .abs | .ceil | .floor | .round => true
+  | _ => false
+
 def applyStrFn (f : StrFn) (s : List Nat) : Value :=
   match f with
   | .upper => .text (s.map upperByte)
@@ -333,11 +385,29 @@ def applyStrFn (f : StrFn) (s : List Nat) : Value :=
   | .length => .int (charCount s)
   | .ltrim => .text (ltrimBytes s)
   | .rtrim => .text (rtrimBytes s)
+  | _ => .null
 
-/-- NULL in, NULL out; anything but a text is a type error -/
+/-- ABS / CEIL / FLOOR / ROUND of an integer: the DOUBLE nearest to |v| resp. to v -/
+def applyNumFnInt (f : StrFn) (v : Int) : Value :=
+  match f with
+  | .abs => dblOfInt (v.natAbs : Int)
+  | _ => dblOfInt v
+
+/-- … of a DOUBLE (by its order key): the sign cleared; the integer above / below / nearest (halves away from zero) -/
+def applyNumFnDbl (f : StrFn) (k : Int) : Value :=
+  match f with
+  | .abs => .dbl (k.natAbs : Int)
+  | .ceil => dblOfInt (dblToInt true false k)
+  | .floor => dblOfInt (dblToInt false true k)
+  | _ => dblOfInt (dblToInt false false k)
+
+/-- NULL in, NULL out; a string function of anything but a text, a numeric function of anything but a number, is a type
+    error -/
 def strFn1 (f : StrFn) : Value → Except Err Value
   | .null => .ok .null
-  | .text s => .ok (applyStrFn f s)
+  | .text s => if f.isNumeric then .error .type else .ok (applyStrFn f s)
+  | .int v => if f.isNumeric then .ok (applyNumFnInt f v) else .error .type
+  | .dbl k => if f.isNumeric then .ok (applyNumFnDbl f k) else .error .type
   | _ => .error .type
 
 /-- `a || b`: NULL if either side is NULL -/
@@ -355,6 +425,7 @@ mutual
 def rtInt32 (tys : List Ty) : Expr → Bool
   | .lit (.int v) => fitsI32 v
   | .col i => tys.getD i .bigint == .int
+  | .neg (.lit (.int v)) => fitsI32 (-v)       -- the parser reads `- 5` as the literal -5
   | .neg e => rtInt32 tys e
   | .pos e => rtInt32 tys e
   | .caseWhen parts => rtInt32Results tys parts
@@ -367,6 +438,112 @@ def rtInt32Results (tys : List Ty) : List Expr → Bool
   | [e] => rtInt32 tys e || isNullLit e
   | _ :: r :: rest => (rtInt32 tys r || isNullLit r) && rtInt32Results tys rest
 end
+
+/-! ## Static result types (as the binder infers them) and the casts applied to produced values -/
+
+def wider : Ty → Ty → Ty
+  | .bigint, _ => .bigint
+  | _, .bigint => .bigint
+  | .int, _ => .int
+  | _, .int => .int
+  | a, _ => a
+
+/-- NULL branches say nothing about the type of a CASE; numeric branches widen each other; otherwise the first
+    typed branch decides (as the binder does) -/
+def joinTy : Option Ty → Option Ty → Option Ty
+  | none, b => b
+  | a, none => a
+  | some .int, some .bigint => some .bigint
+  | some .bigint, some .int => some .bigint
+  | some a, some _ => some a
+
+mutual
+/-- static type of an expression as the binder infers it; `none` for an untyped NULL -/
+def inferTyO (tys : List Ty) : Expr → Option Ty
+  | .lit (.int v) => some (if fitsI32 v then .int else .bigint)
+  | .lit (.text _) => some .text
+  | .lit (.bool _) => some .bool
+  | .lit (.dbl _) => some .double
+  | .lit _ => none
+  | .col i => some (tys.getD i .bigint)
+  | .neg e => inferTyO tys e
+  | .pos e => inferTyO tys e
+  | .arith _ a b => match inferTyO tys a, inferTyO tys b with
+    | none, none => none
+    | ta, tb => some (wider (ta.getD (tb.getD .bool)) (tb.getD (ta.getD .bool)))   -- an untyped NULL operand takes the other's type
+  | .caseWhen parts => inferResults tys parts
+  | .caseOf _ parts => inferResults tys parts
+  | .strFn .length _ => some .int
+  | .strFn f _ => some (if f.isNumeric then .double else .text)
+  | .concat _ _ => some .text
+  | .nullif a _ => inferTyO tys a
+  | .coalesce xs => inferFirst tys xs
+  | _ => some .bool
+
+/-- the type of the first argument that has one (COALESCE) -/
+def inferFirst (tys : List Ty) : List Expr → Option Ty
+  | [] => none
+  | e :: es => match inferTyO tys e with
+    | some t => some t
+    | none => inferFirst tys es
+
+def inferResults (tys : List Ty) : List Expr → Option Ty
+  | [] => none
+  | [e] => inferTyO tys e
+  | _ :: r :: rest => joinTy (inferTyO tys r) (inferResults tys rest)
+end
+
+def inferTy (tys : List Ty) (e : Expr) : Ty := (inferTyO tys e).getD .bool
+
+/-- a produced value is stored with the declared / inferred type: a 64-bit integer that does not fit an INT
+    column is a type error; so is a value of another category -/
+def castTo (ty : Ty) : Value → Except Err Value
+  | .null => .ok .null
+  | .int v => match ty with
+    | .int => if fitsI32 v then .ok (.int v) else .error .type
+    | .bigint => if fitsI64 v then .ok (.int v) else .error .type
+    | .uint => if 0 ≤ v && v ≤ u32Max then .ok (.int v) else .error .type
+    | .biguint => if 0 ≤ v && v ≤ u64Max then .ok (.int v) else .error .type
+    | _ => .error .type
+  | .bool b => match ty with
+    | .bool => .ok (.bool b)
+    | _ => .error .type
+  | .text s => match ty with
+    | .text => .ok (.text s)
+    | _ => .error .type
+  | .rat n d => .ok (.rat n d)
+  | .dbl k => match ty with
+    | .double | .float => .ok (.dbl k)
+    | _ => .error .type
+
+def Ty.isUnsigned : Ty → Bool
+  | .uint | .biguint => true
+  | _ => false
+
+mutual
+/-- is the value of this expression of an unsigned runtime kind?  (Columns of an unsigned type; unsigned (op) unsigned;
+    a COALESCE / NULLIF whose result type is unsigned — their result is cast to it; literals are signed.) -/
+def rtUnsigned (tys : List Ty) : Expr → Bool
+  | .col i => (tys.getD i .bigint).isUnsigned
+  | .pos e => rtUnsigned tys e
+  | .arith _ a b => rtUnsigned tys a && rtUnsigned tys b
+  | .caseWhen parts => rtUnsignedResults tys parts
+  | .caseOf _ parts => rtUnsignedResults tys parts
+  | .nullif a _ => (inferTy tys a).isUnsigned
+  | .coalesce xs => ((inferFirst tys xs).getD .bool).isUnsigned
+  | _ => false
+
+def rtUnsignedResults (tys : List Ty) : List Expr → Bool
+  | [] => true
+  | [e] => rtUnsigned tys e || isNullLit e
+  | _ :: r :: rest => (rtUnsigned tys r || isNullLit r) && rtUnsignedResults tys rest
+end
+
+/-- the first value that is not NULL -/
+def firstNonNull : List Value → Value
+  | [] => .null
+  | .null :: vs => firstNonNull vs
+  | v :: _ => v
 
 mutual
 /-- Value of an expression on a row.  `tys` are the declared types of the row's columns. -/
@@ -387,7 +564,8 @@ def eval (D : Defects) (tys : List Ty) (row : Row) : Expr → Except Err Value
     | .error x => .error x
     | .ok .null => .ok .null
     | .ok (.int v) =>
-      if (if rtInt32 tys e then fitsI32 (-v) else fitsI64 (-v)) then .ok (.int (-v))
+      if rtUnsigned tys e then .error .type      -- no unary minus on UINT / BIGUINT
+      else if (if rtInt32 tys e then fitsI32 (-v) else fitsI64 (-v)) then .ok (.int (-v))
       else .error (if D.overflowPanics then .panic else .overflow)
     | .ok _ => .error .type
   | .and a b =>
@@ -419,7 +597,7 @@ def eval (D : Defects) (tys : List Ty) (row : Row) : Expr → Except Err Value
     | .error x => .error x
     | .ok va => match eval D tys row b with
       | .error x => .error x
-      | .ok vb => arith D op va vb
+      | .ok vb => arith D (rtUnsigned tys a && rtUnsigned tys b) op va vb
   | .like neg a p =>
     match eval D tys row a with
     | .error x => .error x
@@ -440,6 +618,16 @@ def eval (D : Defects) (tys : List Ty) (row : Row) : Expr → Except Err Value
     | .ok va => match eval D tys row b with
       | .error x => .error x
       | .ok vb => concatV va vb
+  | .nullif a b =>
+    match eval D tys row a with
+    | .error x => .error x
+    | .ok va => match eval D tys row b with
+      | .error x => .error x
+      | .ok vb => castTo (inferTy tys a) (if cmp3 .eq va vb == some true then .null else va)
+  | .coalesce xs =>
+    match evalList D tys row xs with
+    | .error x => .error x
+    | .ok vs => castTo ((inferFirst tys xs).getD .bool) (firstNonNull vs)
   | .isNull neg e =>
     match eval D tys row e with
     | .error x => .error x
@@ -512,72 +700,6 @@ def evalPred (D : Defects) (tys : List Ty) (e : Expr) (row : Row) : Except Err B
   | .ok (.bool b) => .ok b
   | .ok .null => .ok false
   | .ok _ => .error .type
-
-/-! ## Static result types (as the binder infers them) and the casts applied to produced values -/
-
-def wider : Ty → Ty → Ty
-  | .bigint, _ => .bigint
-  | _, .bigint => .bigint
-  | .int, _ => .int
-  | _, .int => .int
-  | a, _ => a
-
-/-- NULL branches say nothing about the type of a CASE; numeric branches widen each other; otherwise the first
-    typed branch decides (as the binder does) -/
-def joinTy : Option Ty → Option Ty → Option Ty
-  | none, b => b
-  | a, none => a
-  | some .int, some .bigint => some .bigint
-  | some .bigint, some .int => some .bigint
-  | some a, some _ => some a
-
-mutual
-/-- static type of an expression as the binder infers it; `none` for an untyped NULL -/
-def inferTyO (tys : List Ty) : Expr → Option Ty
-  | .lit (.int v) => some (if fitsI32 v then .int else .bigint)
-  | .lit (.text _) => some .text
-  | .lit (.bool _) => some .bool
-  | .lit (.dbl _) => some .double
-  | .lit _ => none
-  | .col i => some (tys.getD i .bigint)
-  | .neg e => inferTyO tys e
-  | .pos e => inferTyO tys e
-  | .arith _ a b => match inferTyO tys a, inferTyO tys b with
-    | none, none => none
-    | ta, tb => some (wider (ta.getD .bool) (tb.getD .bool))
-  | .caseWhen parts => inferResults tys parts
-  | .caseOf _ parts => inferResults tys parts
-  | .strFn .length _ => some .int
-  | .strFn _ _ => some .text
-  | .concat _ _ => some .text
-  | _ => some .bool
-
-def inferResults (tys : List Ty) : List Expr → Option Ty
-  | [] => none
-  | [e] => inferTyO tys e
-  | _ :: r :: rest => joinTy (inferTyO tys r) (inferResults tys rest)
-end
-
-def inferTy (tys : List Ty) (e : Expr) : Ty := (inferTyO tys e).getD .bool
-
-/-- a produced value is stored with the declared / inferred type: a 64-bit integer that does not fit an INT
-    column is a type error; so is a value of another category -/
-def castTo (ty : Ty) : Value → Except Err Value
-  | .null => .ok .null
-  | .int v => match ty with
-    | .int => if fitsI32 v then .ok (.int v) else .error .type
-    | .bigint => if fitsI64 v then .ok (.int v) else .error .type
-    | _ => .error .type
-  | .bool b => match ty with
-    | .bool => .ok (.bool b)
-    | _ => .error .type
-  | .text s => match ty with
-    | .text => .ok (.text s)
-    | _ => .error .type
-  | .rat n d => .ok (.rat n d)
-  | .dbl k => match ty with
-    | .double => .ok (.dbl k)
-    | _ => .error .type
 
 /-! ## Relational operators (pure parts: these are what the theorems are about) -/
 
@@ -1056,7 +1178,7 @@ data.  (The engine finds it when the comparison meets two non-NULL values; gener
 
 /-- category of a type: numbers, texts, booleans -/
 def Ty.cat : Ty → Nat
-  | .int | .bigint | .double => 0
+  | .int | .bigint | .double | .uint | .biguint | .float => 0
   | .text => 1
   | .bool => 2
 
@@ -1075,6 +1197,8 @@ def illTyped (tys : List Ty) (unk : List Nat) : Expr → Bool
   | .lit _ | .col _ => false
   | .not e | .neg e | .pos e | .isNull _ e | .strFn _ e => illTyped tys unk e
   | .and a b | .or a b | .arith _ a b | .like _ a b | .concat a b => illTyped tys unk a || illTyped tys unk b
+  | .nullif a b => catClash tys unk a b || illTyped tys unk a || illTyped tys unk b
+  | .coalesce xs => illTypedList tys unk xs
   | .cmp _ a b => catClash tys unk a b || illTyped tys unk a || illTyped tys unk b
   | .between _ e lo hi =>
     catClash tys unk e lo || catClash tys unk e hi || illTyped tys unk e || illTyped tys unk lo || illTyped tys unk hi
